@@ -43,7 +43,7 @@ def run(ctx):
 
     def keep(h):
         r0, op = h[0], h[1]
-        if not r0["present"] and op["op"] not in ("upload", "read"):
+        if not r0["present"] and op["op"] not in ("upload", "post", "read"):
             return False
         if ctx.thorough:
             return True
@@ -51,7 +51,7 @@ def run(ctx):
         core = op["form"] in ("plain", "suffix") and op["via"] == "query"
         if r0["cfg"] == {"w": "", "r": ""}:
             return core and rng.random() < 0.3
-        return core or rng.random() < 0.12
+        return core or rng.random() < 0.07
 
     rows = hists
     hists = [h for h in hists if keep(h)]
@@ -61,7 +61,7 @@ def run(ctx):
     for h in rows:
         if h[0]["cfg"] != {"w": "", "r": ""}:
             by_cfg.setdefault(json.dumps(h[0]["cfg"], sort_keys=True), []).append(h)
-    for _ in range(3000 if ctx.thorough else 500):
+    for _ in range(3000 if ctx.thorough else 300):
         pool = by_cfg[rng.choice(sorted(by_cfg))]
         first = rng.choice(pool)
         hists.append([first[0]] + [rng.choice(pool)[1] for _ in range(rng.randint(2, 4))])
@@ -75,7 +75,7 @@ def run(ctx):
 
     script = os.path.join(ctx.out, "script.ndjson")
     if ctx.replay:
-        script = ctx.replay
+        script = os.path.abspath(ctx.replay)
     else:
         with open(script, "w") as f:
             for h in hists:
@@ -84,8 +84,11 @@ def run(ctx):
     binp = ctx.build("c34")
     # viper (the signing keys) is process-global: one driver process per key configuration
     trace = os.path.join(ctx.out, "trace-all.ndjson")
+    wanted = {json.dumps(json.loads(x)["cfg"], sort_keys=True) for x in open(script) if '"reset"' in x}
     with open(trace, "w") as out:
         for c in CONFIGS:
+            if json.dumps(c, sort_keys=True) not in wanted:
+                continue  # a replayed script names one configuration only
             t = ctx.drive(binp, ["--script", script, "--mode", cfgname(c)], name="trace-" + cfgname(c).replace(",", "_").replace("=", ""))
             out.write(open(t).read())
 
@@ -137,7 +140,7 @@ def run(ctx):
     if not ctx.replay and (ok_with_key < 50 or denied < 50):
         raise vf.Infra("vacuous run: %d valid-token successes, %d refusals" % (ok_with_key, denied))
     ctx.rule = ("executions = TLC-enumerated decision table: key configuration {none, write, read, both, both-same} x "
-                "initial blob state x operation {upload, delete, read, head} x request form (6) x transport (3) x every "
+                "initial blob state x operation {upload (PUT), post (multipart), delete, read, head} x request form (6) x transport (3) x every "
                 "token that differs from the valid one in one dimension (shape, algorithm, key, exp, nbf, claim; thorough: "
                 "a sample of two-dimension variations) + TLC-simulated 2-3 operation sequences; one driver process per "
                 "key configuration; non-trivial = contains a refusal or a success; distinct by hash of the recorded execution")
